@@ -161,8 +161,9 @@ def build(sc, assemblage=None, fractions=None):
         assemblage, fractions = (pydrex.MineralPhase(sc["pair"][0]),), (1.0,)
     params["phase_assemblage"] = tuple(assemblage)
     params["phase_fractions"] = tuple(fractions)
-    get_L, desc = make_L(rng, sc["lkind"], scale=sc.get("rate", 1.0))
-    v = rng.normal(size=3)
+    rng_flow = np.random.default_rng(sc.get("flow_seed", sc["seed"] + 1))   # independent of the texture
+    get_L, desc = make_L(rng_flow, sc["lkind"], scale=sc.get("rate", 1.0))
+    v = rng_flow.normal(size=3)
 
     def get_x(t, v=v, r=sc.get("rate", 1.0)):
         return v * t * r
